@@ -2,6 +2,9 @@ import Infretis.Lemmas.RepexC07Chain
 import Infretis.Lemmas.RepexC07AsIs
 import Infretis.Lemmas.RepexC07Eng
 import Infretis.Lemmas.RepexC07JobDraws
+import Infretis.Lemmas.RepexC07Disk
+import Infretis.Lemmas.RepexC07MC
+import Infretis.Lemmas.PermEval
 /-!
 # C07 — every job gets its own random stream
 
@@ -37,8 +40,23 @@ a stream, and the `k`-th distinct job has `(seed, [k, j])` / `(seed, [k, j, 0])`
 
 Quantifiers: every number of ensembles, workers, steps, every seed, every engine table, every
 event list (every completion order, every accept/reject outcome, every outcome of the random
-choices), every restart point (between events, or at the instant `treat_output` writes
-`restart.toml`), with and without jobs in flight, any number of restarts.
+choices), every restart IMAGE (`persist` of the state between two events, or the image `treat_output`
+writes into `restart.toml`), with and without jobs in flight, any number of restarts.
+
+**Which images exist on disk (sections 4 and 8).**  The code writes `restart.toml` only at the end of
+`treat_output` and in the last `loop()`.  The image "`persist` of the state between two events" of
+`ChainAny.restart` / `ChainReach.restart` (sections 4) already records the job `prep_md_items` drew after
+the last `treat_output`; the real file does not.  Sections 1–7 therefore describe restarts from an image —
+whichever is handed to the new process — and the histories in which every issued job is on that image.
+What a CRASH does is section 8 (`ChainDisk`, Model/RepexDisk.lean): the new process is built from the file
+that is on disk; the job issued after the last write (during the initiation loop: every job of the
+process) is lost — it never completes, its result is never consumed, no record of it exists — and ITS
+ORDINAL IS ISSUED AGAIN to the first fresh job of the new process (`lost_job_ordinal_reissued`).  With an
+unchanged number of workers and the restored `rng_state` that job is the identical job (same pick: C06's
+determinism, tie-only here); with another number of workers it is in general a different (ensemble, path):
+the lost job and that job then share streams.  "No two jobs receive the same stream" is proved for the
+CONTINUED HISTORY — the jobs on the image plus the jobs issued since (`kept ++ lost` of the running
+process) — and the spawn counter counts exactly those (`streams_pairwise_distinct_across_crashes`).
 
 **Scope.**  Since /repo 17a0342 the restart file records the spawn counter whenever it is not
 `cstep + len(locked)`, so a restart always continues the counter.  The stream theorems
@@ -539,11 +557,16 @@ example : czS.cstep = 0 ∧ czS.restarted = true ∧ czS.spawned = 0 ∧ czS.wor
 /-! ## 5. The scheduler's own draws -/
 
 /-- **`scheduler_draws_accounted`** (scheduler side of "all draws come from the right stream").
-    In every history from a fresh start the position of the scheduler's stream advances by exactly
-    the draw requests returned by the `pick()`s (`Draw.choiceAll`, then possibly `.coin`, then
-    possibly `.choiceCol` — the only request forms there are, none of which names a job stream):
-    the scheduler draws nothing else on its stream, and `treat_output`, `loop`, `initiate`,
-    the engine assignment never draw.  Each job's group of requests has one of the three shapes. -/
+    In every history from a fresh start the PICK position of the scheduler's stream (`mainDraws`: the
+    requests of `pick()` / `pick_traj_ens()`) advances by exactly the draw requests returned by the
+    `pick()`s (`Draw.choiceAll`, then possibly `.coin`, then possibly `.choiceCol` — the only request forms
+    there are, none of which names a job stream); `treat_output`, `loop`, `initiate`, the engine assignment
+    request nothing.  Each job's group of requests has one of the three shapes.
+    NOT counted here (the state machine uses the exact P matrix): the Monte-Carlo requests `self.prob` makes
+    on the same stream through `inf_retis → random_prob` when an idle block has more than 12 rows and is not
+    row-constant — section 9: none with at most 12 idle slots (`pick_draws_accounted_partial`), present
+    otherwise (`scheduler_draws_accounted_monte_carlo_counterexample`).  They are draws of the SCHEDULER on
+    its OWN stream; no statement about job streams depends on them. -/
 theorem scheduler_draws_accounted (seed : Nat) (y0 y : Sys) (h0 : FreshStart seed y0) (evs : List Ev)
     (hr : run y0 evs = .ok y) :
     y.s.mainDraws = (schedDraws y0 evs).length ∧
@@ -1098,5 +1121,257 @@ theorem velocity_request_is_engine_rgen (k : EngKind) (s : Vel.Setup) (hs : s.en
 example : (velRequest .lammps, velRequest (.ase true)) =
     ((.engineRgen, "normal"), (.engineRgen, "standard_normal")) := by decide +kernel
 
+
+/-! ## 8. Crash restarts from the file that is on disk
+
+`Model/RepexDisk.lean`: `Proc` = scheduler state + `./restart.toml`; `stepD` = one iteration of `scheduler()` (only a
+completion rewrites the file, inside `treat_output`, BEFORE the next job is drawn); `restartFromDisk` = the process
+dies and a new one is built from the image ON DISK.  `ChainDisk seed p kept lost` (Lemmas/RepexC07Disk.lean): any
+number of such rounds from a fresh start; `kept` = the continued history (jobs whose issue the file reflects),
+`lost` = the jobs the running process issued after the last write — what a crash at this instant discards. -/
+
+/-- the counter `set_rgen()` derives from an image is the spawn counter of the state that wrote it -/
+theorem persist_counter (s : St) : (persist s).counter = s.spawned := by
+  obtain ⟨_, p2, p3, _, _, p6⟩ := persist_fields s
+  unfold Image.counter
+  rw [p6, p2, p3]
+  unfold spawnedKey
+  split
+  · rename_i hc; simp [hc]
+  · simp
+
+/-- the counter stored in (derived from) the file on disk counts the distinct jobs of the continued history -/
+theorem disk_counter {seed : Nat} {kept : List Entry} {im : Image} (hw : DiskWit seed kept im) :
+    im.counter = (freshOrds kept).length ∧ im.seed = seed := by
+  rcases hw with ⟨yw, k, st, nw, s2, hc, hmid, rfl⟩ | ⟨yw, hc, rfl⟩
+  · obtain ⟨_, _, m1, _, m3, _⟩ := midState_spec hmid
+    have hi := hc.inv
+    rw [persist_counter, m3, hi.fresh, List.length_range]
+    exact ⟨rfl, (persist_fields s2).1.trans (m1.trans hi.hseed)⟩
+  · have hi := hc.inv
+    rw [persist_counter, hi.fresh, List.length_range]
+    exact ⟨rfl, (persist_fields yw.s).1.trans hi.hseed⟩
+
+/-- **`streams_pairwise_distinct_across_crashes`** (FULL: any number of crashes at any instant, any worker / step
+    counts at each restart).  For the running process of every `ChainDisk`, over the continued history together
+    with the jobs issued since the last write of the file (`kept ++ lost`):
+    every entry carries `(seed, [ord, j])` / `(seed, [ord, j, 0])`; the fresh entries have the ordinals
+    `0, 1, 2, …` — the spawn counter is (distinct jobs of the continued history) + (jobs issued since the last
+    write), and the counter the file on disk restores is (distinct jobs of the continued history) alone;
+    all streams of distinct jobs are pairwise distinct; entries with different ordinals share no stream; no
+    stream is the scheduler's.  (The jobs of `lost` discarded by EARLIER crashes are not in the log: see
+    `lost_job_ordinal_reissued`.) -/
+theorem streams_pairwise_distinct_across_crashes (seed : Nat) (p : Proc) (kept lost : List Entry)
+    (h : ChainDisk seed p kept lost) :
+    ChainAny seed p.y (kept ++ lost) ∧
+    (∀ e ∈ kept ++ lost, ∀ (j : Nat) (q : Picked), e.job.picked[j]? = some q →
+        q.rgen = { entropy := seed, key := [e.ord, j] } ∧
+        q.rgenEng = { entropy := seed, key := [e.ord, j, 0] }) ∧
+    (freshOrds (kept ++ lost) = List.range p.y.s.spawned ∧
+      p.y.s.spawned = (freshOrds kept).length + (freshOrds lost).length ∧
+      ∀ im, p.disk = some im → im.counter = (freshOrds kept).length ∧ im.seed = seed) ∧
+    (allStreams (((kept ++ lost).filter (·.fresh)).map (·.job))).Nodup ∧
+    (∀ e1 ∈ kept ++ lost, ∀ e2 ∈ kept ++ lost, e1.ord ≠ e2.ord →
+      ∀ x ∈ allStreams [e1.job], x ∉ allStreams [e2.job]) ∧
+    (∀ x ∈ allStreams ((kept ++ lost).map (·.job)), x.key ≠ [] ∧ ∀ s : St, x ≠ mainStream s) := by
+  have hi := h.inv
+  obtain ⟨r1, ⟨r2a, r2b, _⟩, r3, r4, _, r6⟩ :=
+    streams_pairwise_distinct_across_restarts seed p.y (kept ++ lost) hi.any
+  refine ⟨hi.any, r1, ⟨?_, ?_, fun im him => disk_counter (hi.wit im him)⟩, r3,
+    fun e1 h1 e2 h2 hne => (r4 e1 h1 e2 h2).1 hne, r6⟩
+  · rw [r2b]; exact r2a
+  · rw [r2b, freshOrds_append, List.length_append]
+
+/-- **`lost_job_ordinal_reissued`** (FULL; what a crash does to the job that is not on the file).  The process of
+    a `ChainDisk` dies; the new process is built from the file on disk.  Then: the file is unchanged, the spawn
+    counter is back at the number of distinct jobs of the continued history, and — whatever the new process
+    re-issues first — its `m`-th FRESH job gets the ordinal and, entry by entry, exactly the move and engine
+    streams of the `m`-th fresh job that was lost.  Nothing makes that job the same (ensemble, path) as the lost
+    one (example below: it is not, after a restart with one worker instead of two). -/
+theorem lost_job_ordinal_reissued (seed : Nat) (p p' : Proc) (kept lost : List Entry)
+    (h : ChainDisk seed p kept lost)
+    (n workers tsteps : Nat) (occ : List (List Int)) (ensEng : List (List Nat)) (weightOf : Nat → List Rat)
+    (hre : restartFromDisk p n workers tsteps occ ensEng weightOf = .ok p') (evs : List Repex.Ev) :
+    ChainDisk seed p' kept [] ∧ p'.disk = p.disk ∧ p'.y.s.spawned = (freshOrds kept).length ∧
+    ∀ (m : Nat) (e' e : Entry), (lost.filter (·.fresh))[m]? = some e' →
+      ((ghost p'.y evs).filter (·.fresh))[m]? = some e →
+      e.ord = e'.ord ∧ e.ord = (freshOrds kept).length + m ∧
+      ∀ (j : Nat) (q' q : Picked), e'.job.picked[j]? = some q' → e.job.picked[j]? = some q →
+        q.rgen = q'.rgen ∧ q.rgenEng = q'.rgenEng := by
+  have hc := ChainDisk.crash h hre
+  have hA := h.inv.any.inv
+  have hBany : ChainAny seed p'.y kept := by
+    have := hc.inv.any
+    rwa [List.append_nil] at this
+  obtain ⟨im, s', hd, _, rfl⟩ := restartFromDisk_spec hre
+  refine ⟨hc, hd.symm, ?_, ?_⟩
+  · have := hBany.inv.fresh
+    rw [this, List.length_range]
+  intro m e' e he' he
+  obtain ⟨hord, hstr⟩ := (fresh_jobs_continue_ordinals seed _ kept hBany evs).1 m e he
+  have hfo : freshOrds kept ++ freshOrds lost = List.range p.y.s.spawned := by
+    rw [← freshOrds_append]; exact hA.fresh
+  have hm : (freshOrds lost)[m]? = some e'.ord := by
+    unfold freshOrds
+    rw [List.getElem?_map, he']; rfl
+  have hord' : e'.ord = (freshOrds kept).length + m := range_split_get hfo hm
+  have hmem' : e' ∈ kept ++ lost :=
+    List.mem_append.mpr (Or.inr (List.mem_of_mem_filter (List.mem_of_getElem? he')))
+  refine ⟨by rw [hord, hord'], hord, ?_⟩
+  intro j q' q hq' hq
+  obtain ⟨a1, a2⟩ := hstr j q hq
+  obtain ⟨b1, b2⟩ := hA.tagged e' hmem' j q' hq'
+  rw [a1, a2, b1, b2, hord']
+  exact ⟨rfl, rfl⟩
+
+/-! ### the concrete crash: 2 workers, the job drawn after the first completion is lost; restart with 1 worker
+
+Process 1 (fresh, seed 7, 2 workers): A = `[0-]` (ordinal 0), B = `[1+]` (ordinal 1), initiation closes — no file yet.
+B completes REJECTED: `treat_output` writes the file (cstep 1, A on record with ordinal 0, counter 1 + 1 = 2), then
+J = (`[1+]`, path 2) is drawn with ordinal 2: `(7, [2, 0])` / `(7, [2, 0, 0])`.  The process dies.
+Process 2 (1 worker) is built from the file: counter 2; A re-issued (ordinal 0); initiation closes; A completes
+REJECTED; the next job J' = (`[0+]`, path 1) gets ordinal 2: `(7, [2, 0])` / `(7, [2, 0, 0])` — the streams of J. -/
+
+def okOrP (d : Proc) : Except Repex.Err Proc → Proc
+  | .ok a => a
+  | .error _ => d
+
+def dk0 : Proc := { y := exSys, disk := none }
+def dkE1 : Repex.Ev := .start { t := 0, e := 0 }
+def dkE2 : Repex.Ev := .start { t := 2, e := 2 }
+def dkE4 : Repex.Ev := .step 1 .rej [] { t := 2, e := 2 }
+def dkE7 : Repex.Ev := .step 0 .rej [] { t := 1, e := 1 }
+def dk1 : Proc := okOrP dk0 (stepD dk0 dkE1)
+def dk2 : Proc := okOrP dk0 (stepD dk1 dkE2)
+def dk3 : Proc := okOrP dk0 (stepD dk2 .initDone)
+def dk4 : Proc := okOrP dk0 (stepD dk3 dkE4)
+def dk5 : Proc := okOrP dk0 (restartFromDisk dk4 4 1 10 [[-1]] [[0], [0], [0]] cxW)
+def dk6 : Proc := okOrP dk0 (stepD dk5 dkE1)
+def dk7 : Proc := okOrP dk0 (stepD dk6 .initDone)
+def dk8 : Proc := okOrP dk0 (stepD dk7 dkE7)
+
+def dkLost3 : List Entry := (([] ++ ghost dk0.y [dkE1]) ++ ghost dk1.y [dkE2]) ++ ghost dk2.y [.initDone]
+def dkKept4 : List Entry := [] ++ dkLost3
+def dkLost4 : List Entry := ghost dk3.y [dkE4]
+def dkLost7 : List Entry := ([] ++ ghost dk5.y [dkE1]) ++ ghost dk6.y [.initDone]
+def dkLost8 : List Entry := ghost dk7.y [dkE7]
+
+theorem dk_runs : stepD dk0 dkE1 = .ok dk1 ∧ stepD dk1 dkE2 = .ok dk2 ∧ stepD dk2 .initDone = .ok dk3 ∧
+    stepD dk3 dkE4 = .ok dk4 ∧ restartFromDisk dk4 4 1 10 [[-1]] [[0], [0], [0]] cxW = .ok dk5 ∧
+    stepD dk5 dkE1 = .ok dk6 ∧ stepD dk6 .initDone = .ok dk7 ∧ stepD dk7 dkE7 = .ok dk8 := by
+  refine ⟨by decide +kernel, by decide +kernel, by decide +kernel, by decide +kernel, by decide +kernel,
+    by decide +kernel, by decide +kernel, by decide +kernel⟩
+
+theorem dk_chain4 : ChainDisk 7 dk4 dkKept4 dkLost4 := by
+  obtain ⟨r1, r2, r3, r4, _⟩ := dk_runs
+  obtain ⟨h1, h2, h3, _, _, _, h7, h8⟩ := ex_fresh.fields
+  have c0 : ChainDisk 7 dk0 [] [] := ChainDisk.fresh h1 h2 h3 h7 h8
+  exact ChainDisk.complete (ChainDisk.issue (ChainDisk.issue (ChainDisk.issue c0 rfl r1) rfl r2) rfl r3) r4
+
+theorem dk_chain8 : ChainDisk 7 dk8 (dkKept4 ++ dkLost7) dkLost8 := by
+  obtain ⟨_, _, _, _, r5, r6, r7, r8⟩ := dk_runs
+  exact ChainDisk.complete (ChainDisk.issue (ChainDisk.issue (ChainDisk.crash dk_chain4 r5) rfl r6) rfl r7) r8
+
+example : dk3.disk = none
+    ∧ (dk4.disk.map (fun im => (im.cstep, im.locked, im.lockedOrd, im.spawnedRec))) = some (1, [([0], [0])], [0], none)
+    ∧ dk4.y.s.locked = [([-1], [0]), ([1], [2])] ∧ dk4.y.s.lockedOrd = [0, 2] ∧ dk4.y.s.spawned = 3
+    ∧ showLog dkKept4 = [⟨0, true, [(-1, [0, 0], [0, 0, 0])]⟩, ⟨1, true, [(1, [1, 0], [1, 0, 0])]⟩]
+    ∧ showLog dkLost4 = [⟨2, true, [(1, [2, 0], [2, 0, 0])]⟩]
+    ∧ dk5.y.s.spawned = 2 ∧ dk5.disk = dk4.disk
+    ∧ showLog dkLost7 = [⟨0, false, [(-1, [0, 0], [0, 0, 0])]⟩]
+    ∧ showLog dkLost8 = [⟨2, true, [(0, [2, 0], [2, 0, 0])]⟩]
+    ∧ dkLost4.map (fun e => e.job.picked.map (fun q => (q.ens, q.pn))) = [[(1, 2)]]
+    ∧ dkLost8.map (fun e => e.job.picked.map (fun q => (q.ens, q.pn))) = [[(0, 1)]] := by
+  refine ⟨by decide +kernel, by decide +kernel, by decide +kernel, by decide +kernel, by decide +kernel,
+    by decide +kernel, by decide +kernel, by decide +kernel, by decide +kernel, by decide +kernel,
+    by decide +kernel, by decide +kernel, by decide +kernel⟩
+
+/-! ## 9. The scheduler's Monte-Carlo draws (`self.prob → inf_retis → random_prob`)
+
+`mcDims s` (Model/RepexDisk.lean, decision logic of C02's `Perm.infRetis`) = sizes of the idle blocks `self.prob`
+sends to `random_prob` in state `s`; each costs `mcCalls k` generator calls on the scheduler's stream.  They are not
+part of `mainDraws` / `Draw` (sections 5): the state machine uses the exact matrix. -/
+
+/-- **`pick_draws_accounted_partial`** (guard: at most 12 idle slots — every simulation with at most 12 ensembles,
+    `[0-]` included, and every state with that few unlocked ones).  Then no `self.prob` evaluation of the `pick()`
+    requests anything (`pickMC`, `mcDims`), so the scheduler's stream advances by exactly the returned `Draw`
+    requests.  Without the guard: `scheduler_draws_accounted_monte_carlo_counterexample`. -/
+theorem pick_draws_accounted_partial (s s' : St) (o : PickOutcome) (ps : List Picked) (ds : List Draw)
+    (hidle : idleCount s ≤ 12) (hp : pick s o = .ok (s', ps, ds)) :
+    s'.mainDraws = s.mainDraws + ds.length ∧ DrawShape ds ∧ (∀ d ∈ pickMC s o, d = []) ∧ mcDims s = [] := by
+  obtain ⟨_, hm, _, _, _, hsh, _⟩ := pick_issue hp
+  exact ⟨hm, hsh, pickMC_nil_of_idle_le s o hidle, mcDims_nil_of_idle_le s hidle⟩
+
+example : idleCount exS0 = 3 ∧ (match pick exS0 { t := 0, e := 0 } with
+    | .ok (s', _, ds) => some (s'.mainDraws, ds.length) | .error _ => none) = some (2, 2) := by
+  refine ⟨by decide +kernel, by decide +kernel⟩
+
+/-- 15 ensembles (`[0-]` + 14 plus ensembles) + ghost, nothing locked; path `i ≥ 1` is valid in all plus ensembles
+    with wire-fencing-like weights `1 + (i·(j+1) + j) mod 3` -/
+def mcW : List (List Rat) :=
+  (([1] ++ List.replicate 15 0) ::
+    (List.range 14).map (fun i => (0 : Rat) :: ((List.range 14).map (fun j => (((1 + (i * (j + 1) + j) % 3 : Nat)) : Rat)) ++ [0])))
+  ++ [List.replicate 16 0]
+
+def mcS : St :=
+  { blank 16 1 5 0 15 3 [[-1]] (List.replicate 15 [0]) false [] with
+    W := mcW, locks := List.replicate 15 false ++ [true], trajs := (List.range 15).map some ++ [none] }
+
+/-- the state after `pick()` has locked `[0+]` (slot 1) in `mcS` -/
+def mcS2 : St := okOr mcS (lock (swap mcS 1 1) 1)
+
+theorem argsort_zeros (k : Nat) (hk : k = 13 ∨ k = 14) :
+    Perm.argsort (List.replicate k (0 : Int)) = List.range k := by
+  rcases hk with rfl | rfl <;>
+  · unfold Perm.argsort
+    rw [List.mergeSort_of_pairwise (by decide)]
+    decide
+
+/-- **`scheduler_draws_accounted_monte_carlo_counterexample`** (the unguarded claim "the scheduler draws nothing
+    else on its stream" is false of the code): with 15 idle slots and unequal weights `self.prob` sends a block of
+    14 rows to `random_prob` (20 000 generator calls on `self.rgen`), and once `[0+]` is locked for the zero swap a
+    block of 13 rows (40 000 calls) — on top of the 3 pick requests `mainDraws` counts.  Reproduced on the real
+    code (tie class `c07_mc`). -/
+theorem scheduler_draws_accounted_monte_carlo_counterexample :
+    idleCount mcS = 15 ∧ mcDims mcS = [14] ∧ mcDims mcS2 = [13] ∧
+    pickMC mcS { t := 1, e := 1, coin := true, partner := 0 } = [mcDims mcS, mcDims mcS2] ∧
+    mcCalls 14 = 20000 ∧ mcCalls 13 = 40000 := by
+  have h1 := (Perm.infRetis_of_argsorts mcS.W mcS.locks off [0] (List.replicate 14 0) [0] (List.range 14)
+    (by decide +kernel) (by decide +kernel) (by decide +kernel) (argsort_zeros 14 (Or.inr rfl))).1
+  have h2 := (Perm.infRetis_of_argsorts mcS2.W mcS2.locks off [0] (List.replicate 13 0) [0] (List.range 13)
+    (by decide +kernel) (by decide +kernel) (by decide +kernel) (argsort_zeros 13 (Or.inl rfl))).1
+  refine ⟨by decide +kernel, ?_, ?_, by rfl, by decide +kernel, by decide +kernel⟩
+  · unfold mcDims; rw [h1]; decide +kernel
+  · unfold mcDims; rw [h2]; decide +kernel
+
+/-- non-vacuity of `lost_job_ordinal_reissued` on the concrete crash: the lost job J and the first fresh job of the
+    new process have the same ordinal and streams and are different (ensemble, path) jobs -/
+example : (dkLost4.filter (·.fresh)).length = 1 ∧
+    ((ghost dk5.y [dkE1, .initDone, dkE7]).filter (·.fresh)).map (fun e => (e.ord, e.job.picked.map (fun q => (q.ens, q.pn, q.rgen))))
+      = [(2, [(0, 1, ⟨7, [2, 0]⟩)])] ∧
+    (dkLost4.filter (·.fresh)).map (fun e => (e.ord, e.job.picked.map (fun q => (q.ens, q.pn, q.rgen))))
+      = [(2, [(1, 2, ⟨7, [2, 0]⟩)])] ∧
+    dk5.y.s.spawned = (freshOrds dkKept4).length :=
+  ⟨by decide +kernel, by decide +kernel, by decide +kernel,
+    (lost_job_ordinal_reissued 7 dk4 dk5 dkKept4 dkLost4 dk_chain4 4 1 10 [[-1]] [[0], [0], [0]] cxW
+      dk_runs.2.2.2.2.1 []).2.2.1⟩
+
+/-! ## 10. TurtleMD: the seed is drawn for every integrator class, the constructor decides whether the MD runs -/
+
+/-- **`tmd_propagate_spec`** (FULL).  `TurtleMDEngine._propagate_from`: without `engine.rgen` it raises (no draw);
+    with it, for EVERY integrator class exactly one seed request `integers(0, 1e9)` is made on `engine.rgen` — the
+    request `propagateDraws .turtlemd` (hence `runJob`) lists — and the integrator is built iff its class takes
+    `seed=` (`LangevinInertia`); for the others the call raises TypeError after the draw: no further draw, no
+    generator built. -/
+theorem tmd_propagate_spec (i : TmdIntegrator) (s : Stream) :
+    tmdPropagate i none = .noRgen ∧ propagateDraws .turtlemd none = .error .noRgen ∧
+    propagateDraws .turtlemd (some s) = .ok [⟨.stream s, .seed 1000000000⟩] ∧
+    (i.acceptsSeed = true → tmdPropagate i (some s) = .ran [⟨.stream s, .seed 1000000000⟩]) ∧
+    (i.acceptsSeed = false → tmdPropagate i (some s) = .typeError [⟨.stream s, .seed 1000000000⟩]) := by
+  refine ⟨rfl, rfl, rfl, fun h => ?_, fun h => ?_⟩ <;> simp [tmdPropagate, h]
+
+example : tmdPropagate .velocityVerlet (some ⟨7, [1, 0, 0]⟩) = .typeError [⟨.stream ⟨7, [1, 0, 0]⟩, .seed 1000000000⟩] ∧
+    tmdPropagate .langevinInertia (some ⟨7, [1, 0, 0]⟩) = .ran [⟨.stream ⟨7, [1, 0, 0]⟩, .seed 1000000000⟩] := by
+  decide +kernel
 
 end Infretis.C07
